@@ -482,6 +482,19 @@ public:
 
     iterator begin() { return iterator(this, m_pool[0].next); }
     iterator end() { return iterator(this, 0); }
+    // const access (the model has one iterator type; const-correctness of the library is checked by the real compiler)
+    iterator begin() const { return iterator(const_cast<list*>(this), m_pool[0].next); }
+    iterator end() const { return iterator(const_cast<list*>(this), 0); }
+    const T& back() const
+    {
+        __vf_check(m_size != 0, VF_LIST_BACK_EMPTY);
+        return m_pool[m_pool[0].prev].value;
+    }
+    const T& front() const
+    {
+        __vf_check(m_size != 0, VF_LIST_BACK_EMPTY);
+        return m_pool[m_pool[0].next].value;
+    }
     size_t   size() const { return m_size; }
     bool     empty() const { return m_size == 0; }
     T&       back()
@@ -781,7 +794,11 @@ public:
         }
         return end();
     }
-    size_t count(const K& k) { return find(k) != end() ? 1 : 0; }
+    size_t   count(const K& k) { return find(k) != end() ? 1 : 0; }
+    iterator end() const { return iterator(const_cast<unordered_map*>(this), __vf_npos); }
+    iterator begin() const { return const_cast<unordered_map*>(this)->begin(); }
+    iterator find(const K& k) const { return const_cast<unordered_map*>(this)->find(k); }
+    size_t   count(const K& k) const { return const_cast<unordered_map*>(this)->count(k); }
     V&     at(const K& k)
     {
         iterator f = find(k);
@@ -940,6 +957,10 @@ public:
         return end();
     }
 
+    iterator begin() const { return iterator(const_cast<__ordered_tab*>(this), m_first); }
+    iterator end() const { return iterator(const_cast<__ordered_tab*>(this), __vf_npos); }
+    iterator find(const K& k) const { return const_cast<__ordered_tab*>(this)->find(k); }
+    size_t   count(const K& k) const { return const_cast<__ordered_tab*>(this)->count(k); }
     size_t count(const K& k)
     {
         size_t c = 0;
